@@ -1,126 +1,182 @@
 (* C03: round trip, cross-target and cross-option agreement of generated codecs.
-   Statements only; proofs in Spec/WireThmC03.v.  The observable of a target under an option set is
-     target_ser tg o t v cap  /  target_des tg o t bits          (Spec/TargetsC03.v)
-   = the ONE DSDL wire specification (Spec/Wire.v, tied to the generated code by C01/C02 and by this check's own
-   correspondence runs) composed with the target's documented float16 rounding rule: C and C++ share
-   nunavutFloat16Pack (nearest, ties away from zero: Prims/F16.v, C14), Python uses struct.pack('<e') (nearest, ties to even).
-   `target_pre tg t v` is the value the specification is applied to (v itself for C and C++). *)
-From Verif Require Import Wire WireThm WireThmRt WireThmExt WireThmValid Walker Refine F16 TargetsC03 WireThmC03.
+   Statements only.  The observable of the generated code of target tg under option set o is
+       obs_ser tg o t v buf cap   /   obs_des tg o t bits                                  (Codec/ObsC03.v)
+   = the code-shaped walker (Codec/Walker.v; Codec/PyWalker.v for the Python serializer) run over the SHIPPED primitive models
+   (C: nunavutSetUxx / nunavutGetU8..64 in the rendering selected by opt_little; C++: bitspan members, zero runs by setZeros or
+   setUxx as selected by opt_setzeros; Python: Serializer / Deserializer with the explicit leaf py_enc_prim - clamp, two's
+   complement, mask, struct.pack('<e') = round half to even), wrapped in the epilogue assertions when opt_asserts is set (Python:
+   always).  None of these definitions mentions the wire specification.  Every equality below is derived (Codec/ObsC03Thm.v) from
+   the instance refinement theorems c_walk_*_refines / cpp_walk_*_refines / py_walk_*_refines under their side conditions:
+       ser_side tg t v buf cap  :=  C, C++: buf_ok buf cap (|buf| = 8*cap < 2^64) /\ storage_ok t v (v fits the generated storage types)
+                                    Python: bmax t <= 8*cap (the Serializer's own buffer suffices)
+       input_ok t bits          :=  whole bytes, |bits| + tsz t < 2^64.
+   Superseded first-round statements: History/C03_history.v. *)
+From Verif Require Import Wire WireThm WireThmRt WireThmExt WireThmValid F16 TargetsC03 TargetPreThm WireThmC03.
+From Verif Require Import Walker RefineSerBits ObsC03 ObsC03Thm.
 Local Open Scope nat_scope.
 
-(* ---- round trip: deserializing what was serialized (whatever follows in the buffer) returns the value after its cast-mode
-   adjustment and consumes exactly the serialized bytes; every target, every option set, every type, every value ---- *)
-Theorem c03_roundtrip : forall tg o t v cap b r, wf_ty t = true -> align t = 8 ->
-  target_ser tg o t v cap = Ok b ->
-  target_des tg o t (b ++ r) = Ok (cast_val t (target_pre tg t v), length b / 8).
-Proof. exact target_roundtrip. Qed.
+(* ---- the observables are the specification: C and C++ of the value itself, Python of the value with float16 ties pre-rounded to
+   even (target_pre, Spec/TargetPre.v; spec_ser tg t v cap = ser_spec t (target_pre tg t v) cap) ---- *)
+Theorem c03_obs_ser_is_spec : forall tg o u fs ext v buf cap, wf_ty (TComp u fs ext) = true ->
+  ser_side tg (TComp u fs ext) v buf cap ->
+  obs_ser tg o (TComp u fs ext) v buf cap = spec_ser tg (TComp u fs ext) v cap.
+Proof. exact obs_ser_is_spec. Qed.
+Print Assumptions c03_obs_ser_is_spec.
+
+Theorem c03_obs_des_is_spec : forall tg o t bits, wf_ty t = true -> input_ok t bits -> obs_des tg o t bits = des_spec t bits.
+Proof. exact obs_des_is_spec. Qed.
+Print Assumptions c03_obs_des_is_spec.
+
+(* the compiled-in epilogue assertions never fire *)
+Theorem c03_ser_asserts_never_fire : forall on t v cap, wf_ty t = true -> align t = 8 ->
+  ser_asserts on t (ser_spec t v cap) = ser_spec t v cap.
+Proof. exact ser_asserts_spec. Qed.
+Print Assumptions c03_ser_asserts_never_fire.
+
+Theorem c03_des_asserts_never_fire : forall on t bits, des_asserts on (length bits) (des_spec t bits) = des_spec t bits.
+Proof. exact des_asserts_spec. Qed.
+Print Assumptions c03_des_asserts_never_fire.
+
+(* ---- round trip through generated code: what target tg's serializer emitted (whatever follows in the buffer) is decoded by the
+   deserializer of ANY target under ANY option set to the value after its cast-mode adjustment, consuming exactly those bytes ---- *)
+Theorem c03_roundtrip : forall tg tg' o o' u fs ext v buf cap b r, wf_ty (TComp u fs ext) = true ->
+  ser_side tg (TComp u fs ext) v buf cap -> obs_ser tg o (TComp u fs ext) v buf cap = Ok b ->
+  input_ok (TComp u fs ext) (b ++ r) ->
+  obs_des tg' o' (TComp u fs ext) (b ++ r) = Ok (cast_val (TComp u fs ext) (target_pre tg (TComp u fs ext) v), length b / 8).
+Proof. exact obs_roundtrip. Qed.
 Print Assumptions c03_roundtrip.
 
-(* ---- the cast is idempotent on encodings (needs pack (unpack h) = h on float16 images: Prims/F16Thm.v) ---- *)
-Theorem c03_enc_cast_idem : forall t v b, wf_ty t = true -> enc_body t v = Ok b -> enc_body t (cast_val t v) = Ok b.
-Proof. exact enc_cast_idem. Qed.
-Print Assumptions c03_enc_cast_idem.
-
-(* ---- serializing the deserialized value again yields the identical bytes ---- *)
-Theorem c03_reser : forall tg o t v cap b v' k, wf_ty t = true -> align t = 8 ->
-  target_ser tg o t v cap = Ok b -> target_des tg o t b = Ok (v', k) -> target_ser tg o t v' cap = Ok b.
-Proof. exact target_reser. Qed.
+(* ---- serializing the deserialized value again yields the identical bytes (any option sets, any initial buffer contents) ---- *)
+Theorem c03_reser : forall tg o o' o'' u fs ext v buf buf' cap b v' k, wf_ty (TComp u fs ext) = true ->
+  ser_side tg (TComp u fs ext) v buf cap -> obs_ser tg o (TComp u fs ext) v buf cap = Ok b ->
+  input_ok (TComp u fs ext) b -> obs_des tg o' (TComp u fs ext) b = Ok (v', k) ->
+  (tg <> TgPy -> buf_ok buf' cap) ->
+  obs_ser tg o'' (TComp u fs ext) v' buf' cap = Ok b.
+Proof. exact obs_reser. Qed.
 Print Assumptions c03_reser.
 
-(* ---- decoding re-encoded decoded data is stable: whatever bytes v was decoded from, its encoding b decodes to cast v and
-   that re-encodes to b again (so bytes and values are fixed from the first re-encoding on) ---- *)
-Theorem c03_des_ser_des : forall tg o t bs cap v k b, wf_ty t = true -> align t = 8 ->
-  target_des tg o t bs = Ok (v, k) -> target_ser tg o t v cap = Ok b ->
-  target_des tg o t b = Ok (cast_val t (target_pre tg t v), length b / 8) /\
-  target_ser tg o t (cast_val t (target_pre tg t v)) cap = Ok b.
-Proof. exact target_des_ser_des. Qed.
-Print Assumptions c03_des_ser_des.
+(* ---- des . ser . des = des at the VALUE level through generated code of any three targets; the excluded trigger is a decoded
+   float16 NaN with a non-canonical payload (boolean predicate f16_nans_canonical) ---- *)
+Theorem c03_des_ser_des_partial : forall tg1 tg2 tg3 o1 o2 o3 u fs ext bits v k buf cap b, wf_ty (TComp u fs ext) = true ->
+  input_ok (TComp u fs ext) bits -> obs_des tg1 o1 (TComp u fs ext) bits = Ok (v, k) ->
+  f16_nans_canonical (TComp u fs ext) v = true ->
+  (tg2 <> TgPy -> buf_ok buf cap) -> (tg2 = TgPy -> bmax (TComp u fs ext) <= 8 * cap) ->
+  obs_ser tg2 o2 (TComp u fs ext) v buf cap = Ok b -> input_ok (TComp u fs ext) b ->
+  obs_des tg3 o3 (TComp u fs ext) b = Ok (v, length b / 8).
+Proof. exact obs_des_ser_des. Qed.
+Print Assumptions c03_des_ser_des_partial.
 
-Theorem c03_decoded_values_reencode : forall o t bs v k cap, target_des TgC o t bs = Ok (v, k) -> bmax t <= 8 * cap ->
-  exists b, target_ser TgC o t v cap = Ok b.
-Proof. exact des_then_ser_ok. Qed.
-Print Assumptions c03_decoded_values_reencode.
-
-(* at the value level des-ser-des is NOT the identity on arbitrary input: float16 NaN payloads are canonicalised by the pack
-   function (DSDL does not promise payload preservation; the harness compares NaNs as one class) *)
+(* the unrestricted value-level statement is false: float16 NaN payloads are canonicalised by the pack function (DSDL does not
+   promise payload preservation; the harness compares NaNs as one class) *)
 Theorem c03_des_ser_des_value_refuted : exists t bs v k b v' k', wf_ty t = true /\
-  des_spec t bs = Ok (v, k) /\ ser_spec t v 2 = Ok b /\ des_spec t b = Ok (v', k') /\ v' <> v.
+  des_spec t bs = Ok (v, k) /\ ser_spec t v 2 = Ok b /\ des_spec t b = Ok (v', k') /\ v' <> v /\ f16_nans_canonical t v = false.
 Proof. exact des_ser_des_value_refuted. Qed.
 Print Assumptions c03_des_ser_des_value_refuted.
 
 (* ---- cross target ---- *)
-Theorem c03_cross_target_ser_c_cpp : forall o1 o2 t v cap, target_ser TgC o1 t v cap = target_ser TgCpp o2 t v cap.
-Proof. exact cross_target_ser_c_cpp. Qed.
-Print Assumptions c03_cross_target_ser_c_cpp.
+(* C and C++ (same float16 pack function) agree on EVERY storable value, ties included, under every pair of option sets and initial
+   buffer contents *)
+Theorem c03_cross_target_ser_c_family : forall tg1 tg2 o1 o2 u fs ext v buf1 buf2 cap, tg1 <> TgPy -> tg2 <> TgPy ->
+  wf_ty (TComp u fs ext) = true -> buf_ok buf1 cap -> buf_ok buf2 cap -> storage_ok (TComp u fs ext) v = true ->
+  obs_ser tg1 o1 (TComp u fs ext) v buf1 cap = obs_ser tg2 o2 (TComp u fs ext) v buf2 cap.
+Proof. exact cross_target_ser_c_family. Qed.
+Print Assumptions c03_cross_target_ser_c_family.
 
-Theorem c03_cross_target_des : forall tg1 tg2 o1 o2 t bs, target_des tg1 o1 t bs = target_des tg2 o2 t bs.
-Proof. exact cross_target_des_all. Qed.
-Print Assumptions c03_cross_target_des.
-
-(* the full statement "all three targets emit the same bytes" is FALSE of the faithful model: finding F-F16-TIE,
-   witness binary32 0x3F801000 = 1 + 2^-11 in a truncated float16 field: C/C++ 0x3C01, Python 0x3C00 *)
-Theorem c03_f16_tie_cross_target_refuted : exists t v cap bc bp, wf_ty t = true /\
-  target_ser TgC default_options t v cap = Ok bc /\ target_ser TgPy default_options t v cap = Ok bp /\ bc <> bp.
-Proof. exact f16_tie_refuted. Qed.
+(* "all three targets emit the same bytes" is FALSE of the models of the shipped code: finding F-F16-TIE, witness binary32
+   0x3F801000 = 1 + 2^-11 in a truncated float16 field, computed through the shipped primitive models: C, C++ 0x3C01, Python 0x3C00 *)
+Theorem c03_f16_tie_cross_target_refuted :
+  obs_ser TgC default_options tie_ty tie_val (repeat true 16) 2 = Ok (bits_of_N 16 15361) /\
+  obs_ser TgCpp default_options tie_ty tie_val (repeat true 16) 2 = Ok (bits_of_N 16 15361) /\
+  obs_ser TgPy default_options tie_ty tie_val (repeat true 16) 2 = Ok (bits_of_N 16 15360) /\
+  no_f16_tie tie_ty tie_val = false.
+Proof. exact obs_f16_tie_refuted. Qed.
 Print Assumptions c03_f16_tie_cross_target_refuted.
 
-(* the strongest true statement: any two targets under any two option sets emit the same bytes (or the same error) whenever no
+(* the strongest true statement: any two targets, option sets and initial buffers give the same bytes (or the same error) whenever no
    float16 field of the value holds an exact rounding tie *)
-Theorem c03_cross_target_ser_partial : forall tg1 tg2 o1 o2 t v cap, no_f16_tie t v = true ->
-  target_ser tg1 o1 t v cap = target_ser tg2 o2 t v cap.
-Proof. exact cross_target_ser_partial. Qed.
+Theorem c03_cross_target_ser_partial : forall tg1 tg2 o1 o2 u fs ext v buf1 buf2 cap, wf_ty (TComp u fs ext) = true ->
+  ser_side tg1 (TComp u fs ext) v buf1 cap -> ser_side tg2 (TComp u fs ext) v buf2 cap ->
+  no_f16_tie (TComp u fs ext) v = true ->
+  obs_ser tg1 o1 (TComp u fs ext) v buf1 cap = obs_ser tg2 o2 (TComp u fs ext) v buf2 cap.
+Proof. exact cross_target_ser. Qed.
 Print Assumptions c03_cross_target_ser_partial.
 
-(* values that went through a round trip or came out of a deserializer of any target hold no tie: all targets agree on them *)
+Theorem c03_cross_target_des : forall tg1 tg2 o1 o2 t bits, wf_ty t = true -> input_ok t bits ->
+  obs_des tg1 o1 t bits = obs_des tg2 o2 t bits.
+Proof. exact cross_target_des. Qed.
+Print Assumptions c03_cross_target_des.
+
+(* ---- options: endianness rendering, setZeros vs setUxx for zero runs, assertion generation (and the initial buffer content) ---- *)
+Theorem c03_option_indep_ser : forall tg o1 o2 u fs ext v buf1 buf2 cap, wf_ty (TComp u fs ext) = true ->
+  ser_side tg (TComp u fs ext) v buf1 cap -> ser_side tg (TComp u fs ext) v buf2 cap ->
+  obs_ser tg o1 (TComp u fs ext) v buf1 cap = obs_ser tg o2 (TComp u fs ext) v buf2 cap.
+Proof. exact option_indep_ser. Qed.
+Print Assumptions c03_option_indep_ser.
+
+Theorem c03_option_indep_des : forall tg o1 o2 t bits, wf_ty t = true -> input_ok t bits ->
+  obs_des tg o1 t bits = obs_des tg o2 t bits.
+Proof. intros tg. exact (cross_target_des tg tg). Qed.
+Print Assumptions c03_option_indep_des.
+
+(* ---- supporting specification-level facts ---- *)
+(* the cast is idempotent on encodings (float16: pack (unpack h) = h on the image of pack, Prims/F16Thm.v) *)
+Theorem c03_enc_cast_idem : forall t v b, wf_ty t = true -> enc_body t v = Ok b -> enc_body t (cast_val t v) = Ok b.
+Proof. exact enc_cast_idem. Qed.
+Print Assumptions c03_enc_cast_idem.
+
+(* values that went through a round trip hold no tie (all targets agree on them) and fit the generated storage types *)
 Theorem c03_cast_values_hold_no_tie : forall t v, no_f16_tie t (cast_val t v) = true.
 Proof. exact cast_no_tie. Qed.
 Print Assumptions c03_cast_values_hold_no_tie.
 
-Theorem c03_cross_target_on_cast_values : forall tg1 tg2 o1 o2 t v cap,
-  target_ser tg1 o1 t (cast_val t v) cap = target_ser tg2 o2 t (cast_val t v) cap.
-Proof. exact cross_target_on_cast_values. Qed.
-Print Assumptions c03_cross_target_on_cast_values.
+Theorem c03_cast_values_fit_storage : forall t, wf_ty t = true -> forall v, storage_ok t (cast_val t v) = true.
+Proof. exact cast_storage_ok. Qed.
+Print Assumptions c03_cast_values_fit_storage.
 
-(* the Python rule of the model is round-half-to-even: on the exact midpoint between the halves h and h+1 (every finite h) the C
-   rule gives h+1 (away from zero) and the Python rule the even one of the two *)
+(* decoded values are fixed points of the cast (NaN payloads aside) and can always be encoded again *)
+Theorem c03_decoded_values_cast_fixed : forall t bs v n, wf_ty t = true -> dec_body t bs = Ok (v, n) ->
+  f16_nans_canonical t v = true -> cast_val t v = v.
+Proof. exact dec_cast_fix. Qed.
+Print Assumptions c03_decoded_values_cast_fixed.
+
+Theorem c03_decoded_values_reencode : forall t bs v k cap, des_spec t bs = Ok (v, k) -> bmax t <= 8 * cap ->
+  exists b, ser_spec t v cap = Ok b.
+Proof. exact des_then_ser_ok. Qed.
+Print Assumptions c03_decoded_values_reencode.
+
+(* the explicit Python leaf (the one Codec/PyWalker.v runs) is the specification's encoding of the pre-adjusted value ... *)
+Theorem c03_py_leaf_is_spec : forall p v, py_enc_prim p v = enc_prim p (py_leaf p v).
+Proof. exact py_enc_prim_spec. Qed.
+Print Assumptions c03_py_leaf_is_spec.
+
+(* ... and its float16 rule is round-half-to-even: on the exact midpoint between the halves h and h+1 (every finite h) the C rule gives
+   h+1 (away from zero) and the Python rule the even one of the two *)
 Theorem c03_f16_rne_on_ties : forall h, (h < 31744)%N ->
   (val32 (mid16 h) * 2 = N.shiftl (val16 h + val16 (h + 1)) 125)%N /\
   is_tie16 (mid16 h) = true /\ pack_mag (mid16 h) = (h + 1)%N /\ f16_pack_rne (mid16 h) = (if N.even h then h else h + 1)%N.
 Proof. exact f16_rne_on_ties. Qed.
 Print Assumptions c03_f16_rne_on_ties.
 
-(* ---- options documented as optimisation / packaging choices (target_endianness on a little-endian host, assertion generation,
-   C++ standard and allocator flavour, variable-array capacity override): the observables carry the option record and do not
-   depend on it - the specification they are made of takes no option argument ---- *)
-Theorem c03_option_indep_ser : forall tg o1 o2 t v cap, target_ser tg o1 t v cap = target_ser tg o2 t v cap.
-Proof. exact option_indep_ser. Qed.
-Print Assumptions c03_option_indep_ser.
-
-Theorem c03_option_indep_des : forall tg o1 o2 t bs, target_des tg o1 t bs = target_des tg o2 t bs.
-Proof. exact option_indep_des. Qed.
-Print Assumptions c03_option_indep_des.
-
-(* on the code-shaped walker (Codec/Walker.v) the option-dependent part is the record of buffer primitives (memmove fast path vs.
-   byte assembly, bitspan, Python Serializer): any two records satisfying the primitive laws give the same observable (fragment
-   of Codec/Refine.v: top-level composites of primitives and arrays of primitives) *)
-Theorem c03_walker_des_prims_indep_partial : forall P1 P2 t bits, prims_ok P1 -> prims_ok P2 -> walk_fragment t = true ->
-  length bits mod 8 = 0 -> walk_des P1 t bits = walk_des P2 t bits.
-Proof. exact walker_des_prims_indep. Qed.
-Print Assumptions c03_walker_des_prims_indep_partial.
-
-(* ---- non-vacuity ---- *)
+(* ---- non-vacuity: the side conditions are satisfiable and the observables run the shipped primitive models ---- *)
 Definition ex_inner : ty := TComp false [TPrim (PU 3 true); TPrim (PS 13 true); TPrim (PF 16 true)] (Some 64).
 Definition ex_union : ty := TComp true [TPrim (PU 8 true); ex_inner; TVar (TPrim (PF 16 false)) 9] None.
 Definition ex_val : val := VUnion 1 (VStruct [VInt 9; VInt (-5000); VFlt 1065357312%N]).     (* saturates 9 -> 7, -5000 -> -4096; tie *)
-Example c03_example_wf : wf_ty ex_union = true /\ align ex_union = 8.
-Proof. vm_compute. split; reflexivity. Qed.
-Example c03_example_roundtrip_c :
-  bind (target_ser TgC default_options ex_union ex_val 20) (fun b => target_des TgC default_options ex_union b)
+Example c03_example_side_conditions :
+  wf_ty ex_union = true /\ storage_ok ex_union ex_val = true /\ (bmax ex_union <=? 8 * 20) = true /\ no_f16_tie ex_union ex_val = false /\
+  no_f16_tie ex_union (VUnion 2 (VArr [VFlt 1065357313%N; VFlt 0%N])) = true.
+Proof. vm_compute. repeat split; reflexivity. Qed.
+Example c03_example_roundtrip_c :      (* C serializer (little rendering, asserts on, 0xFF buffer), C++ deserializer *)
+  bind (obs_ser TgC (mk_options true false true) ex_union ex_val (repeat true 160) 20)
+       (fun b => obs_des TgCpp default_options ex_union b)
   = Ok (VUnion 1 (VStruct [VInt 7; VInt (-4096); VFlt 1065361408%N]), 9).
 Proof. vm_compute. reflexivity. Qed.
-Example c03_example_roundtrip_py :      (* the same value through the Python observable: the tie goes to even, 0x3C00 = 1.0 *)
-  bind (target_ser TgPy default_options ex_union ex_val 20) (fun b => target_des TgPy default_options ex_union b)
+Example c03_example_roundtrip_py :     (* the same value through the Python serializer: the tie goes to even, 0x3C00 = 1.0 *)
+  bind (obs_ser TgPy default_options ex_union ex_val [] 20) (fun b => obs_des TgPy default_options ex_union b)
   = Ok (VUnion 1 (VStruct [VInt 7; VInt (-4096); VFlt 1065353216%N]), 9).
 Proof. vm_compute. reflexivity. Qed.
-Example c03_example_tie_free : no_f16_tie ex_union (VUnion 2 (VArr [VFlt 1065357313%N; VFlt 0%N])) = true /\ no_f16_tie ex_union ex_val = false.
+Example c03_example_options :
+  let t := TComp false [TPrim (PU 3 true); TPrim (PVoid 7); TPrim (PS 13 true); TPrim (PF 16 false)] None in
+  let v := VStruct [VInt 9; VVoid; VInt (-5000); VFlt 1065357313%N] in
+  obs_ser TgC (mk_options true false true) t v (repeat true 40) 5 = obs_ser TgCpp (mk_options false true false) t v (repeat false 40) 5 /\
+  obs_ser TgCpp (mk_options false false true) t v (repeat true 40) 5 = obs_ser TgPy default_options t v [] 5.
 Proof. vm_compute. split; reflexivity. Qed.
